@@ -332,9 +332,11 @@ static void open_round(TGuard& c) {
   if (led_valid) {
     VA(cur_dest == led_dest, 211);                         // the later request replaced earlier ones
     VA(cur_org == led_org, 608);                           // ... and carries its requester as origin
+    VA(cur_dest == led_dest && cur_org == led_org, 1120); // (C11: the transition under evaluation is the request as it was made)
 #if PAYLOAD
     VA(cur_haspay == led_haspay, 705);
     if (cur_haspay && led_haspay) VA(payeq(cur_pay, led_pay), 701);
+    VA(cur_haspay == led_haspay && (!cur_haspay || payeq(cur_pay, led_pay)), 1121);
 #endif
   }
   led_valid = false; led_fresh = false;
